@@ -253,6 +253,36 @@ def monitorC07 (cx : Ctx) : List Finding := Id.run do
                         s!"dropped player {h}: frame {f} (≤ last frame {lastF}) has ({v},{ch}), real input {t}" :: out
                   | none => pure ()
               | none => pure ()
+  -- the same timing for a spectator session and its host: silent (by packets that come from the
+  -- host's address and carry its magic number) for longer than the timeout → the host endpoint is
+  -- disconnected by the poll that notices; packets from other addresses do not count
+  for s in cx.sc.sessions do
+    if s.kind != "spec" then continue
+    let dt := s.nat "dt" 2000 * 1000
+    let addr := s.nat "host" 0
+    let mut lastRecv : Option Nat := none
+    let mut firstPoll : Option Nat := none
+    let mut reported := false
+    for c in cx.sc.calls do
+      if c.sid != s.sid || reported then continue
+      if c.call == ["poll"] || c.call == ["adv"] then
+        if firstPoll.isNone then firstPoll := some c.now
+        let eps := match kvGet c.snap "host" with
+          | some h => parseEps s!"{addr}:R:{h}"
+          | none => []
+        let st := (eps.head?).map (·.state)
+        let t0 := lastRecv.getD (firstPoll.getD 0)
+        let t0 := if heardFrom cx c addr then c.now else t0
+        if st == some 3 || st == some 4 then
+          if !(c.now > t0 + dt) then
+            out := mkF cx "C07" "too-early" s.sid c.lineNo
+              s!"spectator: host (address {addr}) disconnected at {c.now} µs, last packet at {t0} µs, timeout {dt} µs" :: out
+          reported := true
+        else if st == some 2 && c.now > t0 + dt then
+          out := mkF cx "C07" "too-late" s.sid c.lineNo
+            s!"spectator: host (address {addr}) silent since {t0} µs, still connected at {c.now} µs (timeout {dt} µs)" :: out
+          reported := true
+        if heardFrom cx c addr then lastRecv := some c.now
   -- "then keeps advancing on its own": two peers, one of them dropped by the other (accepted
   -- `disconnect_player`, or a Disconnected event for its address); in the clean epilogue the
   -- survivor's frame counter must move although the dropped peer is silent or gone
